@@ -122,11 +122,14 @@ class Stats:
 
 def drive(ctx, name: str, strategy, evaluate: Callable[[Any], Outcome], max_examples: int,
           stats: Optional[Stats] = None, max_root_causes: int = 4, shrink: bool = True,
-          seed_offset: int = 0) -> Stats:
+          seed_offset: int = 0, reset="default") -> Stats:
     """
     ctx: worker context (seed, shard, known signatures ...)
     """
     stats = stats or Stats()
+    if reset == "default":
+        from vp import env as _env
+        reset = _env.reset_caches
     excluded = set(ctx.known_signatures)
     remaining = max_examples
     attempt = 0
@@ -137,6 +140,8 @@ def drive(ctx, name: str, strategy, evaluate: Callable[[Any], Outcome], max_exam
         counter = {"n": 0}
 
         def prop(case):
+            if reset is not None:
+                reset()
             out = evaluate(case)
             if state["recording"]:
                 counter["n"] += 1
@@ -176,6 +181,20 @@ def drive(ctx, name: str, strategy, evaluate: Callable[[Any], Outcome], max_exam
             remaining -= max(1, counter["n"])
             attempt += 1
             continue
+        except hypothesis.errors.Flaky:
+            # A violation was observed, but re-executing the same case gave another outcome: state of the code
+            # under test leaked between executions. The observed violation stands; it could not be shrunk.
+            lf = state["last_failure"]
+            if lf is None:
+                raise
+            stats.violations.append({
+                "check": name, "signature": lf["signature"], "detail": lf["detail"] + "  [not reproducible by re-execution in the same process: state leaked between cases]",
+                "case": lf["case"], "shrunk": False, "shrink_s": round(time.time() - t0, 2),
+            })
+            excluded.add(lf["signature"])
+            remaining -= max(1, counter["n"])
+            attempt += 1
+            continue
         except hypothesis.errors.Unsatisfiable:
             stats.notes.append(f"{name}: strategy unsatisfiable")
             break
@@ -188,7 +207,9 @@ def enumerate_cases(ctx, name: str, iterable, evaluate: Callable[[Any], Outcome]
     """Exhaustive / listed cases (no Hypothesis): first case per unknown signature is kept as the replay."""
     stats = stats or Stats()
     excluded = set(ctx.known_signatures)
+    from vp import env as _env
     for case in iterable:
+        _env.reset_caches()
         out = evaluate(case)
         stats.record(case, out)
         for d in out.discrepancies:
